@@ -38,6 +38,8 @@ type Engine struct {
 	sums    map[*ssa.Function]*Summary
 	sumBusy map[*ssa.Function]bool
 	cursors map[*ssa.Function]map[*ssa.Phi]ssa.Value
+	// at: the block of the construct being examined (facts there prune phi inputs, see kit.RootAt)
+	at *ssa.BasicBlock
 	curBusy map[*ssa.Function]bool
 	keyType map[string]types.Type
 	keyName map[string]string
@@ -101,6 +103,12 @@ func (e *Engine) fieldStores(fn *ssa.Function) map[*types.Var][]*ssa.Store {
 func (e *Engine) resolve(v ssa.Value) ssa.Value {
 	for i := 0; i < 8; i++ {
 		v = kit.Strip(v)
+		if ph, ok := v.(*ssa.Phi); ok && e.at != nil && ph.Parent() == e.at.Parent() {
+			if r := kit.RootAt(ph, e.at); r != ssa.Value(ph) {
+				v = r
+				continue
+			}
+		}
 		u, ok := v.(*ssa.UnOp)
 		if !ok || u.Op != token.MUL {
 			return v
